@@ -3,8 +3,6 @@ C40 — helper lemmas (property theorems are in Props.lean).
 -/
 import PorepyVerif.C40.Model
 import Mathlib.Tactic.Ring
-import Mathlib.Tactic.LinearCombination
-import Mathlib.LinearAlgebra.Matrix.Charpoly.Basic
 
 namespace PorepyVerif.C40
 
@@ -49,26 +47,11 @@ theorem inv2_transpose3 (K : M3) : inv2 (transpose3 K) = inv2 K := by
 theorem detM_transpose3 (K : M3) : detM (transpose3 K) = detM K := by
   simp only [detM, transpose3]; ring
 
-/-! bridge to Mathlib matrices (`M3` is definitionally `Matrix (Fin 3) (Fin 3) ℚ`) -/
-
-def toMatrix (K : M3) : Matrix (Fin 3) (Fin 3) ℚ := Matrix.of K
-
-theorem toMatrix_mul3 (A B : M3) : toMatrix (mul3 A B) = toMatrix A * toMatrix B := by
-  ext i j
-  simp [toMatrix, mul3, sum3, Matrix.mul_apply, Fin.sum_univ_three]
-
-theorem toMatrix_transpose3 (A : M3) : toMatrix (transpose3 A) = (toMatrix A).transpose := by
-  ext i j; rfl
-
-theorem toMatrix_id3 : toMatrix id3 = 1 := by
-  ext i j
-  simp [toMatrix, id3, Matrix.one_apply]
-
-theorem toMatrix_rotate1 (R K : M3) :
-    toMatrix (rotate1 R K) = toMatrix R * (toMatrix K).transpose * (toMatrix R).transpose := by
-  rw [← toMatrix_transpose3, ← toMatrix_transpose3, ← toMatrix_mul3, ← toMatrix_mul3]
-  ext j i
-  exact rotate1_entry R K j i
+/-- the characteristic polynomial in terms of the three invariants -/
+theorem charPoly3_eq (K : M3) (x : Rat) :
+    charPoly3 K x = x ^ 3 - trace3 K * x ^ 2 + inv2 K * x - detM K := by
+  simp [charPoly3, detM, trace3, inv2]
+  ring
 
 /-! ### `select` (fancy indexing) -/
 
